@@ -92,7 +92,7 @@ PRELUDE = r'''
 (defn retv [x] (array/push TR (string "@ret " (fid (fiber/current)) " " (fmt x) " " (snap))) x)
 (defn snd [l sig x] (array/push TR (string "@snd " l " " (fid (fiber/current)) " " sig " " (fmt x) " " (snap))) nil)
 (defn sndp [l x f]   # a propagate re-raises x only if its fiber operand is acceptable; otherwise it raises its own error
-  (if (and (fiber? f) (not= :new (fiber/status f)) (not= :alive (fiber/status f))) (snd l -1 x)))
+  (if (and (fiber? f) (not= :new (fiber/status f)) (not= :alive (fiber/status f)) (not= :dead (fiber/status f))) (snd l -1 x)))
 (defn c05/new [f & args]
   (def nf (fiber/new f ;args))
   (array/push TR (string "@new " (fid (fiber/current)) " " (length G) " " (if (empty? args) "-" (string "=" (in args 0)))))
